@@ -1,5 +1,6 @@
 import Secp.Proofs.Schnorr
 import Secp.Props.C03
+import Secp.Proofs.Slices
 /-
   Props/C11 — EC-Schnorr-DCRv0 signing and verification follow the published scheme.
   Model: `Secp.Model.schnorrSignM`, `schnorrSign`, `schnorrVerifyM`, `schnorrParse`,
@@ -55,5 +56,14 @@ theorem verify_iff_unconditional (B : Bytes → Bytes) (hB : ∀ x, (B x).length
       (m.length = 32 ∧ OnCurve x y ∧ challenge B r m < N ∧
         ∃ rx ry, Pt.add (smul s G) (smul (challenge B r m) (some (x, y))) = some (rx, ry) ∧ ry % 2 = 0 ∧ rx = r) :=
   verify_iff Secp.Props.C03.pointSpec B hB r s m x y hr hs hx hy
+
+
+/-- Limb level of this property's own functions: the REGENERATED sliced field programs (tools/gotr pass T2s,
+    `Secp.Gen.Slices`) of Schnorr sign / verify / parse / serialise pass the abstract interpreter on every path — no magnitude overflow, every
+    comparison / parity test / serialisation reads a normalised value, every callee's precondition holds,
+    every returned key or point is normalised.  Together with C05 (kernels) and C16 (`absPath_sound`,
+    `contracts_justified`) this is what makes the value-level model above faithful to the limb code. -/
+theorem schnorr_field_arithmetic_exact :
+    Secp.Proofs.Slices.entriesOK ["github.com/ModChain/secp256k1/schnorr.schnorrVerify", "github.com/ModChain/secp256k1/schnorr.schnorrSign", "github.com/ModChain/secp256k1/schnorr.ParseSignature", "github.com/ModChain/secp256k1/schnorr.Signature.Serialize", "github.com/ModChain/secp256k1/schnorr.Signature.IsEqual", "github.com/ModChain/secp256k1/schnorr.NewSignature"] = true := by decide +kernel
 
 end Secp.Props.C11
